@@ -10,6 +10,7 @@ import (
 	"sort"
 	"strings"
 	"sync"
+	"sync/atomic"
 	"time"
 
 	"github.com/evergreen-ci/birch"
@@ -41,6 +42,12 @@ func (l *loggingCollector) Add(in interface{}) error {
 	}
 	l.order = append(l.order, [2]int64{g, i})
 	return nil
+}
+
+// Resolve takes a little longer than it needs to: producers then queue up behind an observer's Resolve
+func (l *loggingCollector) Resolve() ([]byte, error) {
+	time.Sleep(100 * time.Microsecond)
+	return l.Collector.Resolve()
 }
 
 // jitterCollector sits between the buffered collector and the synchronized one and yields or sleeps
@@ -85,7 +92,16 @@ func cmdConcColl(o *Out, line string, f []string) {
 	var ackMu sync.Mutex
 	stopObs := make(chan struct{})
 	var obsWg sync.WaitGroup
-	{
+	var ackedCount int64 // Adds that have returned nil so far
+	// what an observer's Resolve returned, with the number of Adds acknowledged before the call began
+	type snap struct {
+		before int64
+		out    []byte
+	}
+	var snaps []snap
+	var snapMu sync.Mutex
+	seed := atoi64(f[5])
+	if seed%3 != 2 {
 		// concurrent observers (on the synchronized collector, or on the buffered collector over it)
 		obsWg.Add(1)
 		go func() {
@@ -111,6 +127,40 @@ func cmdConcColl(o *Out, line string, f []string) {
 			}
 		}()
 	}
+	{
+		// a second observer that only reads (Info, Resolve): nothing it does invalidates anything the wrapper
+		// may keep between calls; in a third of the cases it is the only observer
+		if seed%3 != 1 {
+			obsWg.Add(1)
+			go func() {
+				defer obsWg.Done()
+				for k := 0; k < 400; k++ {
+					select {
+					case <-stopObs:
+						return
+					default:
+					}
+					before := atomic.LoadInt64(&ackedCount)
+					out, err := c.Resolve()
+					if err == nil {
+						snapMu.Lock()
+						if len(snaps) < 3 || k%37 == 0 {
+							snaps = append(snaps, snap{before, out})
+						} else {
+							snaps[len(snaps)-1] = snap{before, out} // always keep the last one
+						}
+						snapMu.Unlock()
+					}
+					_ = c.Info()
+					if wrapper == "buffered" {
+						time.Sleep(150 * time.Microsecond)
+					} else {
+						runtime.Gosched()
+					}
+				}
+			}()
+		}
+	}
 	for g := 0; g < G; g++ {
 		wg.Add(1)
 		go func(g int) {
@@ -118,6 +168,7 @@ func cmdConcColl(o *Out, line string, f []string) {
 			for i := 0; i < M; i++ {
 				d := birch.NewDocument(birch.EC.Int64("g", int64(g)), birch.EC.Int64("i", int64(i)))
 				if err := c.Add(d); err == nil {
+					atomic.AddInt64(&ackedCount, 1)
 					ackMu.Lock()
 					acked[g] = append(acked[g], int64(i))
 					ackMu.Unlock()
@@ -177,7 +228,35 @@ func cmdConcColl(o *Out, line string, f []string) {
 			}
 		}
 	}
-	o.emit(line, fmt.Sprintf("acked=%d once-in-order=%v decoded=%v delivered=%v", total, okOrder, decodedOK, delivered))
+	// the same through the wrapper: what Resolve on the wrapper returns now is what the wrapped collector holds
+	wrapperOK := true
+	if rerr == nil && delivered {
+		wout, werr := c.Resolve()
+		if werr != nil {
+			wrapperOK = false
+		} else {
+			a, _ := iterDocs(ftdc.ReadStructuredMetrics(context.Background(), bytes.NewReader(wout)))
+			b, _ := iterDocs(ftdc.ReadStructuredMetrics(context.Background(), bytes.NewReader(out)))
+			wrapperOK = strings.Join(a, ",") == strings.Join(b, ",")
+		}
+	}
+	// real-time order (synchronized collector): a Resolve contains every Add acknowledged before it was called
+	staleOK := true
+	if wrapper == "sync" {
+		for _, sn := range snaps {
+			docs, derr := iterDocs(ftdc.ReadStructuredMetrics(context.Background(), bytes.NewReader(sn.out)))
+			if derr != nil || int64(len(docs)) < sn.before {
+				staleOK = false
+			}
+		}
+	}
+	o.emit(line, fmt.Sprintf("acked=%d once-in-order=%v decoded=%v delivered=%v", total, okOrder, decodedOK && wrapperOK && staleOK, delivered))
+	if !wrapperOK {
+		o.violation(line, "Resolve on the wrapper differs from what the wrapped collector holds after all producers have finished", nil)
+	}
+	if !staleOK {
+		o.violation(line, "a Resolve on the synchronized collector misses samples whose Add had returned nil before the Resolve was called", nil)
+	}
 	o.nontrivial(line)
 	o.count("conc-" + wrapper)
 	if total != G*M {
